@@ -836,4 +836,20 @@ def run_extra(ctx):
     # "the listing contains exactly the added names": one entry per stored file (shared with C07)
     from .c07 import listing_once_rule
     listing_once_rule(ctx, ctx.prog.crate("wow_mpq"), "C01")
+    # ... every added name, including names that look like listfile comments or carry a ';': Archive::list reads the (listfile) with
+    # the member-aware parser (a line that names a member is a name, whatever characters it uses)
+    mpq_ = ctx.prog.crate("wow_mpq")
+    R_names = ctx.rule("C01.listing-reads-names-with-the-member-aware-parser", "Archive::list parses the (listfile) with parse_listfile_with and a predicate that asks the archive (find_file) — not with the plain parse_listfile", floor=1)
+    ls_ = mpq_.fns.get("wow_mpq::archive::Archive::list")
+    if ls_ is None or not ls_.hir:
+        ctx.bad(R_names, "Archive::list|missing", "-", "function not found", "anchor gone")
+    else:
+        ctx.saw_fn(ls_)
+        aware_ = [c for c in hirq.calls(ls_.hir["body"]) if re.search(r"parse_listfile_with$", c.get("fn") or "") and any(x.get("k") == "mcall" and x["m"] in ("find_file", "has_file") for x in hirq.walk(c))]
+        plain_ = [c for c in hirq.calls(ls_.hir["body"]) if re.search(r"special_files::(listfile::)?parse_listfile$", c.get("fn") or "")]
+        if aware_ and not plain_:
+            ctx.ok(R_names, {"fn": "Archive::list", "parser": "parse_listfile_with + find_file"})
+        else:
+            ctx.bad(R_names, "Archive::list|plain-listfile-parser", ls_.where, "Archive::list parses the (listfile) with %s" % ("parse_listfile" if plain_ else "an unrecognised reader"),
+                    "a member named `#notes.txt` is taken for a comment and `a;b.txt` is cut at the ';': both were added, neither is listed (the builder writes such names into the listfile verbatim)")
     setters_keep_other_settings_rule(ctx, [ctx.prog.crate(c) for c in ["wow_mpq"]], "C01", "builder::ArchiveBuilder$|archive::OpenOptions$", floor=14)
